@@ -193,6 +193,11 @@ def make_integrals(ispec):
     e = e * ispec["escale"]
     if not h.any() and not e.any():
         h[0, 0] = 1.0
+    if ispec.get("h_int"):
+        # a hand-typed integer hopping matrix (integer dtype) next to floating-point two-electron integrals
+        h = np.round(h * 2).astype(np.int64)
+        if not h.any() and not e.any():
+            h[0, 0] = 1
     return h, e
 
 
@@ -201,8 +206,9 @@ def integral_specs(draw, kmin, kmax):
     K = draw(st.sampled_from([k for k in (1, 2, 2, 3, 3, 3, 4, 4) if kmin <= k <= kmax]))
     return {"K": K, "mode": draw(st.sampled_from(INT_MODES)), "rng": draw(st.integers(0, 10 ** 6)),
             "dens": draw(st.sampled_from([0.2, 0.4, 0.7])), "grp": draw(st.integers(1, 14)),
-            "hscale": draw(st.sampled_from([1.0, 1.0, 1.0, 0.01, 30.0])),
-            "escale": draw(st.sampled_from([1.0, 1.0, 1.0, 0.01, 30.0]))}
+            "hscale": draw(st.sampled_from([1.0, 1.0, 1.0, 0.01, 30.0, 1e-9])),
+            "escale": draw(st.sampled_from([1.0, 1.0, 1.0, 0.01, 30.0, 1e-9, 1e-10])),
+            "h_int": draw(st.integers(0, 7)) == 0}
 
 
 def to_long(op):
@@ -578,6 +584,10 @@ class C17(Prop):
         "FC17c": lambda spec, sig, msg: sig.startswith("fc17c.") and sig.endswith("qr_mixed_sector_label")
         and (spec.get("kind") in ("gs", "evo") or "qr" in (spec.get("algo"), spec.get("swap_algo")))
         and bool(spec.get("conserve_qn", spec.get("sys", {}).get("conserve_qn", spec.get("sys", {}).get("type") != "qc"))),
+        # F58 (C01): swaps mixing QR and a graph algorithm when physical factors are far from 1 (here: integrals scaled by <= 1e-9)
+        "F58": lambda spec, sig, msg: spec.get("kind") == "swap" and (("qr" == spec.get("algo")) != ("qr" == spec.get("swap_algo")))
+        and min(spec.get("ints", {}).get("hscale", 1.0), spec.get("ints", {}).get("escale", 1.0)) <= 1e-9
+        and (sig.endswith(("empty_bond_operator", "selfcheck_count_mismatch")) or sig.startswith("swap.")),
         "FC17b": lambda spec, sig, msg: sig.startswith("fc17b.") and sig.endswith("duplicate_primary_ops") and bool(spec.get("swap_jw"))
         and bool(spec.get("conserve_qn", spec.get("sys", {}).get("conserve_qn"))),
     }
